@@ -848,6 +848,10 @@ def r11_18(ctx, rep):
     site = GEN + ":Generator.get_derivative"
     hz = [c for c in ast.walk(fn) if isinstance(c, ast.Call) and isinstance(c.func, ast.Attribute) and c.func.attr == "has_nz" and len(c.args) == 2]
     if not hz:
+        # another spelling of the same question (`J_sparsity[:, a:b].nnz() > 0`, `ca.depends_on(s, dep)`) asks about the whole dependency by construction
+        if any(isinstance(c, ast.Call) and isinstance(c.func, ast.Attribute) and c.func.attr in ("nnz", "depends_on", "which_depends") for c in ast.walk(fn)):
+            rep.ob(R, site, "the dependency test asks about the dependency as a whole", True, "")
+            return
         raise MechanismMissing(R, "the sparsity test of the Jacobian (has_nz) was not found in get_derivative")
     # the counters of enumerations over the dependency list
     counters = set()
@@ -864,6 +868,86 @@ def r11_18(ctx, rep):
         rep.ob(R, site, "sparsity test #%d covers the dependency's own Jacobian entries" % (k + 1), col_ok and row_ok,
                "`%s` tests one entry — column = position of the dependency in the list, row = %s: for a dependency with several elements (or an "
                "expression with several rows) the other entries are not looked at and a non-zero derivative is dropped" % (norm(c), norm(row)))
+
+
+@SPEC.rule(
+    "R11.19",
+    "a slice subscript is shifted to 0-based at its start only: in the slice branch of Generator.get_indexed_symbol the converted subscript is "
+    "slice(<start - 1, or None>, <the slice's stop>, <the slice's step>) — Modelica's inclusive 1-based stop is Python's exclusive 0-based stop, "
+    "so the stop (and the step) pass through unchanged; any arithmetic on them drops or adds an element for some start/stop/step",
+)
+def r11_19(ctx, rep):
+    from ..pyutil import inlined
+    R = "R11.19"
+    fn = ctx.func(GEN, "Generator.get_indexed_symbol", R)
+    site = GEN + ":Generator.get_indexed_symbol"
+    n = 0
+    for br in ast.walk(fn):
+        if not (isinstance(br, ast.If) and isinstance(br.test, ast.Call) and is_name(br.test.func, "isinstance") and len(br.test.args) == 2 and is_name(br.test.args[1], "slice")):
+            continue
+        v = norm(br.test.args[0])
+        block = [st for b in br.body for st in ast.walk(b) if isinstance(st, ast.stmt)]
+        for c in [c for b in br.body for c in ast.walk(b) if isinstance(c, ast.Call) and is_name(c.func, "slice") and len(c.args) == 3]:
+            n += 1
+            a0, a1, a2 = [norm(inlined(a, block, keep={v})) for a in c.args]
+            rep.ob(R, site, "converted slice keeps the stop", a1 == v + ".stop", "the stop of the converted slice is `%s`, not %s.stop" % (a1[:70], v))
+            rep.ob(R, site, "converted slice keeps the step", a2 == v + ".step", "the step of the converted slice is `%s`, not %s.step" % (a2[:70], v))
+            rep.ob(R, site, "converted slice starts one earlier", (v + ".start - 1") in a0 and a0.count(v + ".start") <= 2 and "None" in a0,
+                   "the start of the converted slice is `%s`, not `None if %s.start is None else %s.start - 1`" % (a0[:70], v, v))
+    if n < 1:
+        raise MechanismMissing(R, "the conversion of a slice subscript (slice(start - 1, stop, step)) was not found in get_indexed_symbol")
+
+
+@SPEC.rule(
+    "R11.20",
+    "a two-argument built-in keeps its argument order: where Generator.exitExpression translates an operator that is a method of MX "
+    "(`getattr(<receiver>, op)(<argument>)`), the receiver is the translation of tree.operands[0] and the argument that of tree.operands[1] "
+    "— `copysign(u, v)`, `fmod(u, v)`, `atan2(u, v)` are not symmetric",
+)
+def r11_20(ctx, rep):
+    import re
+    from ..pyutil import inlined, stmt_list_of
+    R = "R11.20"
+    fn = ctx.func(GEN, "Generator.exitExpression", R)
+    site = GEN + ":Generator.exitExpression"
+    n = 0
+    for st in ast.walk(fn):
+        if not isinstance(st, ast.stmt) or isinstance(st, (ast.If, ast.For, ast.While, ast.Try, ast.With, ast.FunctionDef)):
+            continue
+        sib = stmt_list_of(st) or []
+        block = [x for b_ in sib for x in ast.walk(b_) if isinstance(x, ast.stmt)]
+
+        def resolve(e):
+            r = inlined(e, block)
+            if isinstance(r, ast.Name):
+                i = next((k for k, s_ in enumerate(sib) if s_ is st), None)
+                if i:
+                    prev = sib[i - 1]
+                    if isinstance(prev, ast.Assign) and len(prev.targets) == 1 and is_name(prev.targets[0], r.id):
+                        return prev.value
+            return r
+
+        for c in ast.walk(st):
+            if not isinstance(c, ast.Call):
+                continue
+            f = inlined(c.func, block)
+            # the method named by the operator itself (not looked up in the operator table: those are R11.1-R11.3's)
+            if not (isinstance(f, ast.Call) and is_name(f.func, "getattr") and len(f.args) == 2 and isinstance(f.args[1], ast.Name)):
+                continue
+            recv = norm(resolve(f.args[0]))
+            if re.fullmatch(r"ca(\.\w+)+", recv):
+                continue  # a constructor of the CasADi module (`getattr(ca.DM, 'zeros')(*dims)`), not a method of an operand
+            if "operands" not in recv and "operands" not in " ".join(norm(inlined(a, block)) for a in c.args):
+                continue
+            n += 1
+            rep.ob(R, site, "receiver of `%s` is the first operand" % norm(c)[:50], set(re.findall(r"operands\[(\w+)\]", recv)) == {"0"},
+                   "the method is looked up on `%s`: for a two-argument built-in the operands are swapped (or not taken by position at all)" % recv[:80])
+            for a in c.args:
+                an = norm(inlined(a, block))
+                rep.ob(R, site, "argument of `%s` is the second operand" % norm(c)[:50], set(re.findall(r"operands\[(\w+)\]", an)) == {"1"} and not isinstance(a, ast.Starred),
+                       "the argument handed to the method is `%s`" % an[:80])
+    if n < 1:
+        raise MechanismMissing(R, "the method-call translation of built-in operators (getattr(<operand>, op)(...)) was not found in exitExpression (found %d)" % n)
 
 
 # -- seeded variants ---------------------------------------------------------
@@ -896,6 +980,18 @@ def _m3(mod):
             st.value.values = [v for k, v in ks]
             return mod
     return None
+
+
+@SPEC.mutant("der() of an expression looks at Jacobian entry (0, position) only", GEN, "R11.18", "covers the dependency's own Jacobian entries")
+def _m_diag_sparsity(mod):
+    def edit(fn):
+        for n in ast.walk(fn):
+            if isinstance(n, ast.Call) and isinstance(n.func, ast.Attribute) and n.func.attr == "has_nz" and len(n.args) == 2:
+                n.args = [ast.Constant(value=0), ast.Name(id="j", ctx=ast.Load())]
+                return True
+        return False
+
+    return mod if replace_in_func(mod, "Generator.get_derivative", edit) else None
 
 
 @SPEC.mutant("residual reversed", GEN, "R11.4", "lhs - rhs")
@@ -942,6 +1038,10 @@ def _m7(mod):
                 inner = n.body[0]
                 n.target, inner.target = inner.target, n.target
                 n.iter, inner.iter = inner.iter, n.iter
+                return True
+            # the same nest once the engine has brought it to a comprehension
+            if isinstance(n, ast.ListComp) and len(n.generators) == 2 and norm(n.generators[0].iter) == "range(len(f.values))":
+                n.generators.reverse()
                 return True
         return False
 
@@ -1055,3 +1155,32 @@ def _m_blend(mod):
         return False
 
     return mod if replace_in_func(mod, "Generator.exitIfStatement", edit) else None
+
+
+@SPEC.mutant("slice stop shifted to 0-based as well", GEN, "R11.19", "keeps the stop")
+def _m_slice_stop(mod):
+    def edit(fn):
+        for c in ast.walk(fn):
+            if isinstance(c, ast.Call) and is_name(c.func, "slice") and len(c.args) == 3 and norm(c.args[1]).endswith(".stop"):
+                c.args[1] = ast.BinOp(left=c.args[1], op=ast.Sub(), right=ast.Constant(value=1))
+                return True
+        return False
+
+    return mod if replace_in_func(mod, "Generator.get_indexed_symbol", edit) else None
+
+
+@SPEC.mutant("two-argument built-in called on its second operand", GEN, "R11.20", "is the first operand")
+def _m_swapped_builtin(mod):
+    def edit(fn):
+        done = False
+        for br in ast.walk(fn):
+            if isinstance(br, ast.If) and any(isinstance(c, ast.Call) and is_name(c.func, "hasattr") for c in ast.walk(br.test)):
+                for st in ast.walk(br):
+                    if isinstance(st, ast.Assign) and isinstance(st.targets[0], ast.Name) and st.targets[0].id in ("lhs", "rhs"):
+                        for x in ast.walk(st.value):
+                            if isinstance(x, ast.Subscript) and norm(x.value) == "tree.operands" and isinstance(x.slice, ast.Constant):
+                                x.slice = ast.Constant(value=1 - x.slice.value)
+                                done = True
+        return done
+
+    return mod if replace_in_func(mod, "Generator.exitExpression", edit) else None
